@@ -18,9 +18,9 @@ func init() {
 	register(&Property{
 		ID:    "C16",
 		Level: "other",
-		Explanation: "Decided (structural clauses; the property as a whole quantifies over run-time XML and is not decided): (R16.1) no DOCX/ODT function rebuilds ordered inline content kind by kind from >= 2 child-content fields of the same unmarshalled element (that loses the interleaving of the source); (R16.2) every loop over a row's cells that keeps a column cursor advances it on every path to the next cell, and the DOCX fillers step by the cell's own span; (R16.3) list-item, list and run/inline text builders reach the loop over each child collection on every path to their return; (R16.4) every text-carrying child collection declared by the structs the body is decoded into is read somewhere; (R16.5) the hand-written ordered decoders dispatch on every text-carrying inline element of the content model and on no deleted-text element. " +
-			"Not decided: interleaving of body-level paragraphs/tables (the counting second pass), heading levels through style inheritance, vertical-merge row spans, header/footer leakage.",
-		Rules: []func(*eng.Ctx){ruleOrderLoss, ruleGridAdvance, ruleDrainChildren, ruleDeclaredChildRead, ruleInlineDispatch},
+		Explanation: "Decided (structural clauses; the property as a whole quantifies over run-time XML and is not decided): (R16.1) no DOCX/ODT function rebuilds ordered inline content kind by kind from >= 2 child-content fields of the same unmarshalled element (that loses the interleaving of the source); (R16.2) every loop over a row's cells that keeps a column cursor advances it on every path to the next cell, and the DOCX fillers step by the cell's own span; (R16.3) list-item, list and run/inline text builders reach the loop over each child collection on every path to their return; (R16.4) every text-carrying child collection declared by the structs the body is decoded into is read somewhere; (R16.5) the hand-written ordered decoders dispatch on every text-carrying inline element of the content model and on no deleted-text element; (R16.6) a streaming token walk that records elements by name consumes their subtree or tests the nesting depth. " +
+			"Not decided: that the counting second pass and the unmarshalled slices agree on which elements are body elements beyond the depth condition, heading levels through style inheritance, vertical-merge row spans, header/footer leakage.",
+		Rules: []func(*eng.Ctx){ruleOrderLoss, ruleGridAdvance, ruleDrainChildren, ruleDeclaredChildRead, ruleInlineDispatch, ruleStreamDepth},
 	})
 }
 
@@ -517,5 +517,87 @@ func ruleInlineDispatch(c *eng.Ctx) {
 		}
 		c.Check(len(missing) == 0 && len(forbidden) == 0, R, sp.fn, fd.Decl.Pos(), fmt.Sprintf("dispatches on %v", keysOf(labels)),
 			fmt.Sprintf("inline elements not dispatched: %v (their text is dropped); deleted/hidden content dispatched: %v", missing, forbidden))
+	}
+}
+
+// R16.6
+func ruleStreamDepth(c *eng.Ctx) {
+	const R = "R16.6-STREAM-DEPTH"
+	c.Rule(R, "a streaming walk over XML tokens that records elements in order by their local name either consumes the element's subtree (DecodeElement / Skip on the same path) or is guarded by a nesting-depth test: otherwise same-named descendants (paragraphs inside table cells) are counted as siblings and every later element is matched to the wrong position", 4, 0)
+	for _, fn := range c.P.ModuleFuncs() {
+		if fn.Pkg == nil {
+			continue
+		}
+		if sp := eng.ShortPath(fn.Pkg.Pkg.Path()); sp != "docx" && sp != "odt" {
+			continue
+		}
+		inTokenLoop := false
+		for _, ci := range eng.Calls(fn, false, func(n string, _ ssa.CallInstruction) bool { return strings.HasSuffix(n, "xml.(*Decoder).Token") }) {
+			if eng.InLoop(ci.Block()) {
+				inTokenLoop = true
+			}
+		}
+		if !inTokenLoop {
+			continue
+		}
+		consumers := eng.Calls(fn, false, func(n string, _ ssa.CallInstruction) bool {
+			return strings.HasSuffix(n, "xml.(*Decoder).DecodeElement") || strings.HasSuffix(n, "xml.(*Decoder).Skip")
+		})
+		depthFact := func(f eng.Fact) bool {
+			_, x, y, ok := f.Cmp()
+			if !ok {
+				return false
+			}
+			for _, s := range [][2]ssa.Value{{x, y}, {y, x}} {
+				ph, isPhi := s[0].(*ssa.Phi)
+				if !isPhi || !isLoopCarried(ph) {
+					// depth+1 compared with a constant is the same test
+					if b, isB := s[0].(*ssa.BinOp); isB {
+						ph, isPhi = b.X.(*ssa.Phi)
+						if !isPhi || !isLoopCarried(ph) {
+							continue
+						}
+					} else {
+						continue
+					}
+				}
+				if bt, isInt := ph.Type().Underlying().(*types.Basic); !isInt || bt.Info()&types.IsInteger == 0 {
+					continue
+				}
+				if _, isC := eng.ConstInt(s[1]); isC {
+					return true
+				}
+			}
+			return false
+		}
+		n := 0
+		for _, ci := range eng.Calls(fn, false, func(n string, _ ssa.CallInstruction) bool { return n == "builtin:append" }) {
+			if !eng.InLoop(ci.Block()) {
+				continue
+			}
+			// only elements recorded by their name (a branch taken on Name.Local == "…")
+			byName := eng.GuardedBy(fn, ci.Block(), func(f eng.Fact) bool {
+				op, x, y, ok := f.Cmp()
+				if !ok || op != token.EQL {
+					return false
+				}
+				_, sx := eng.ConstString(x)
+				_, sy := eng.ConstString(y)
+				return sx || sy
+			})
+			if !byName {
+				continue
+			}
+			n++
+			consumed := false
+			for _, d := range consumers {
+				if d.Block().Dominates(ci.Block()) || ci.Block().Dominates(d.Block()) {
+					consumed = true
+				}
+			}
+			guarded := eng.GuardedBy(fn, ci.Block(), depthFact)
+			c.Check(consumed || guarded, R, fmt.Sprintf("%s#append%d", eng.FuncName(fn), n), ci.Pos(), "subtree consumed or depth-guarded",
+				"an element is recorded by name while its descendants stay in the token stream and no nesting depth is tested: a same-named descendant (a paragraph inside a table cell) is taken for the next sibling")
+		}
 	}
 }
